@@ -323,6 +323,8 @@ def rule_gating(ctx: Ctx, rid: str = "C08.GATING") -> int:
 
         ok = bool(found) and all(not guards_of(s, stop=rp) for s in found)
         ctx.ob(rid, SM, found[0] if found else rp, f"run_prepare: self.{attr} = xr.Dataset()", ok, detail=f"run_prepare no longer re-creates self.{attr} empty on every path")
+        own = bool(found) and all(len(s.targets) == 1 for s in found)
+        ctx.ob(rid, SM, found[0] if found else rp, f"run_prepare: self.{attr} is an object of its own", own, expected="one constructor call per dataset", detail="`a = b = xr.Dataset()` binds both attributes to ONE dataset: steps that fill an empty dataset in place (allocate_confidence_map) then write the left products into the right dataset, which is no longer empty without a validation step")
     return n
 
 
